@@ -19,7 +19,7 @@ CLAIMED = {
     "C09": dict(
         text="Bounded symbolic execution (CrossHair/z3) of the real Client.upload / download / list(recursive) / remove and all the client methods below them on top of a model FTP peer replacing only "
              "Client.command and Client.get_stream; tree shape, destination, write_into and working directory symbolic: remote/local tree afterwards equals the documented image exactly, recursive listing "
-             "returns each entry once with a usable path, remove deletes exactly the subtree.",
+             "returns each entry once with a usable path, remove deletes exactly the subtree. The peer is an MLSD server or, symbolically chosen, a LIST-only server; two-operation histories on one client session (upload, change directory, upload; upload, remove, upload; upload, download back).",
         note="Trusted: CrossHair/z3, the model peer (reply codes as in C05's reference model), MemoryPathIO as local side. Outside: deeper / wider trees, real local filesystem semantics, symlinks, the wire level.",
         technique="bounded symbolic execution of the real Python code (CrossHair 0.0.110 + z3) against a specification function for the documented destination",
         design_ref="DESIGN.md section 3 C09",
@@ -27,7 +27,7 @@ CLAIMED = {
     "C19": dict(
         text="Bounded symbolic execution (CrossHair/z3) of every client parser on class-representative garbage and on every small mutation of valid lines (parse_list_line: only ValueError or a well-typed result; "
              "parse_mlsx_line total on symbolic Unicode; PASV/EPSV/257 parsers: ordinary exceptions only; parse_response terminates on every line sequence), of Client.list on hostile listings, and of the real "
-             "dispatcher on undecodable / truncated / over-long control lines after every verb prefix with a concurrent second session.",
+             "dispatcher on undecodable / truncated / over-long control lines after every verb prefix with a concurrent second session. Native auxiliary (measured, not a solver verdict): every client parser answers within a deadline on lines containing a 64-character run of one character.",
         note="Trusted: CrossHair/z3; inputs are exhaustive over the stated alphabets and windows (regular expressions and strptime make free symbolic text intractable). Outside: longer garbage, peers that never send EOL/EOF (C16).",
         technique="bounded symbolic execution of the real Python code (CrossHair 0.0.110 + z3): parser robustness harnesses over alphabet products and mutation windows",
         design_ref="DESIGN.md section 3 C19",
@@ -35,7 +35,7 @@ CLAIMED = {
     "C08": dict(
         text="Bounded symbolic execution (CrossHair/z3), pair by pair: the command line every client method builds for a SYMBOLIC Unicode name -> real parse_command -> get_paths addresses exactly that name; "
              "the client's 257 parser inverts RFC-959 quote doubling for symbolic names and the real server's PWD reply decodes to the same directory; MLSx line round trip on symbolic names; LIST line round trip and "
-             "a whole life cycle (MKD..RMD) through the real dispatcher over a class-representative alphabet.",
+             "a whole life cycle (MKD..RMD) through the real dispatcher over a class-representative alphabet. Twelve names on which Unicode normalisation / case folding is not the identity go through PWD, the life cycle, LIST and MLSx and the stored name is compared.",
         note="Trusted: CrossHair/z3 (string model, one upstream equality bug patched). Known finding (open): LIST fallback drops leading spaces of a name. Outside: names beyond the length bounds, non-utf-8 encodings, filesystem normalisation.",
         technique="bounded symbolic execution of the real Python code (CrossHair 0.0.110 + z3): encoder/decoder pair harnesses on symbolic strings",
         design_ref="DESIGN.md section 3 C08",
@@ -51,7 +51,7 @@ CLAIMED = {
     "C15": dict(
         text="z3 over the CURRENT source of Throttle / ThrottleStreamIO executed by an AST interpreter (reals; symbolic chunk sizes, I/O durations, gaps, oversleeps): cumulative bound at every I/O "
              "start for every level of a stack, shared limit over every interleaving of two streams, independence of clones, no delay when off, no unnecessary delay; vacuity guard, translator validation "
-             "against the real classes, every witness replayed on the real classes in exact rational arithmetic. Plus CrossHair on the real dispatcher / USER / PASV / EPSV / Client for which Throttle objects each stream carries.",
+             "against the real classes, every witness replayed on the real classes in exact rational arithmetic. Plus CrossHair on the real dispatcher / USER / PASV / EPSV / Client for which Throttle objects each stream carries. The shared-limit query also runs with a tighter private limit per stream below the shared one.",
         note="Trusted: z3, the interpreter (pysym) and its environment models (clock, sleep with oversleep, concurrent join), validated against the real classes on concrete schedules each run. "
              "Outside: more than 6 sequential I/Os, IEEE-754 rounding, limits outside the grid, more than two streams on one limit.",
         technique="AST-to-SMT symbolic execution of the real source (pysym + z3, bounded unrolling) and CrossHair for the wiring",
@@ -60,7 +60,7 @@ CLAIMED = {
     "C17": dict(
         text="Bounded symbolic execution (CrossHair/z3) of two real dispatcher sessions on one Server: frame condition per verb (B's whole Connection container, transcript and data connection untouched "
              "while A executes one command from symbolic states of both; B's next PWD answers from B's own state), delivery of accepted data connections to the owning session, and two real Clients over "
-             "SimNet interleaved by symbolic per-session latencies compared with their solo runs (results equal, final tree = union).",
+             "SimNet interleaved by symbolic per-session latencies compared with their solo runs (results equal, final tree = union). No value stored under the same key in two sessions may be the same object unless immutable or shared by design; each backend instance is bound to its own session.",
         note="Trusted: CrossHair/z3, scripted channels, SimNet. Outside: more than two sessions, overlapping paths, interleavings finer than network deliveries in the pair harness.",
         technique="bounded symbolic execution of the real Python code (CrossHair 0.0.110 + z3): two-session frame condition + interleaved pairs",
         design_ref="DESIGN.md section 3 C17",
@@ -68,7 +68,7 @@ CLAIMED = {
     "C12": dict(
         text="Bounded symbolic execution (CrossHair/z3) of the real Server (start, dispatcher with its finally block, passive listeners, workers, close) serving the real Client over a simulated "
              "network, cut at a SYMBOLIC event-loop iteration by the peer vanishing or by Server.close(): afterwards no server-side transport, passive listener or backend file is open, the connection "
-             "table is empty, port pool and slots are complete, and Server.close() completes leaving no task behind.",
+             "table is empty, port pool and slots are complete, and Server.close() completes leaving no task behind. Cut kinds: peer vanishes, control connection reset with a command unread, Server.close(); a restarted upload/download script runs on a backend whose calls suspend; the ledger is also taken at the instant close() returns.",
         note="Trusted: CrossHair/z3, SimNet (TCP contract; start_server leaks a listener cancelled after binding, like asyncio), SpyPathIO. Each cut point is a separate path; the solver certifies none is skipped. "
              "Outside: several sessions cut at once, TLS, real file descriptors.",
         technique="bounded symbolic execution of the real Python code (CrossHair 0.0.110 + z3): symbolic crash point (loop iteration)",
@@ -86,7 +86,7 @@ CLAIMED = {
     "C14": dict(
         text="Bounded symbolic execution (CrossHair/z3) of the real dispatcher, abor, worker decorator and transfer workers with ABOR arriving at a symbolic event-loop iteration after the "
              "150 mark (data connection made, withheld, or made late): transcript after 150 is exactly [completion, 226] / [426, 226] / [425, 226], no teardown, data connection closed, "
-             "only a prefix delivered or stored, follow-up transfer / PWD / second ABOR succeed.",
+             "only a prefix delivered or stored, follow-up transfer / PWD / second ABOR succeed. The same on a backend whose calls suspend, so that ABOR can arrive inside a backend call of the worker; when the session has ended the transfer's data connection is closed whoever held it.",
         note="Trusted: CrossHair/z3, VLoop iteration hook, scripted channels. Each arrival point is a separate path (the solver certifies that none in the bound is skipped). "
              "Outside: ABOR pipelined before the 150 mark, files > 7 bytes, concurrent transfers on one session.",
         technique="bounded symbolic execution of the real Python code (CrossHair 0.0.110 + z3): symbolic arrival point (loop iteration) of ABOR",
@@ -95,7 +95,7 @@ CLAIMED = {
     "C13": dict(
         text="Bounded symbolic execution (CrossHair/z3) of every storage-touching command through the real dispatcher on a spying MemoryPathIO whose k-th backend call (k symbolic) "
              "raises OSError through the real universal_exception wrapper: exactly one final reply 451 and no success reply, a detached data connection is closed, no file left open, "
-             "follow-up commands work; end to end over SimNet the real client gets 451 instead of hanging and a parallel session is unaffected.",
+             "follow-up commands work; end to end over SimNet the real client gets 451 instead of hanging and a parallel session is unaffected. What the failing call raises is a parameter too (EIO, a timeout, ValueError, ENOENT, RuntimeError).",
         note="Trusted: CrossHair/z3, SpyPathIO fault injection, scripted channels, SimNet. Outside: backends that hang instead of failing, faults in several non-adjacent calls.",
         technique="bounded symbolic execution of the real Python code (CrossHair 0.0.110 + z3): symbolic fault position",
         design_ref="DESIGN.md section 3 C13",
@@ -104,7 +104,7 @@ CLAIMED = {
         text="Bounded symbolic execution (CrossHair/z3) of STOR/APPE/RETR through the real dispatcher, workers, AsyncStreamIterator, ThrottleStreamIO and MemoryPathIO with symbolic "
              "payload length, block size, restart offset (real REST), old length, network segmentation and short-read sizes against a POSIX reference (exact stored bytes, file[off:] delivered "
              "in order, data socket closed, 150 then 226, no file left open, MLST after 226 shows the new size); mangle-prone byte values exhaustively; the real Client's "
-             "upload/append/download streams end to end over a simulated network.",
+             "upload/append/download streams end to end over a simulated network. Also: the same transfers on a backend whose calls suspend (the 226 is not written before the stored file's close has completed), and two sessions on one server (what B stored or replaced is what A downloads and stats afterwards).",
         note="Trusted: CrossHair/z3, scripted data socket (read(n) returns an arbitrary non-empty prefix), SimNet (ordered, lossless). Outside: payloads > bound, block sizes > 3, TLS, other backends.",
         technique="bounded symbolic execution of the real Python code (CrossHair 0.0.110 + z3): differential harness against a POSIX write/read reference",
         design_ref="DESIGN.md section 3 C01",
@@ -138,7 +138,7 @@ CLAIMED = {
     "C02": dict(
         text="Bounded symbolic execution (CrossHair/z3) of the real Server.get_paths on symbolic path strings (character level) and on segment products over "
              "class representatives ('..', '.', '', backslash, drive / UNC shapes, '//' leads) for five base-path flavours, against an independent stack-machine "
-             "resolution; plus every path handler through the real dispatcher on a spying backend (every backend path inside base, sibling tree untouched, PWD normalised).",
+             "resolution; plus every path handler through the real dispatcher on a spying backend (every backend path inside base, sibling tree untouched, PWD normalised). The path handed to the permission lookup is observed as well (normalised absolute form); names holding a backslash below a windows-flavoured base path are enumerated. Known finding (open): on a windows base path a backslash inside a name splits the real path while the virtual path keeps one segment.",
         note="Trusted: CrossHair/z3 and its execution of pathlib's pure-Python parsing (sys.intern stubbed to the identity). Outside: longer paths, symlinks, other Windows flavours.",
         technique="bounded symbolic execution of the real Python code (CrossHair 0.0.110 + z3): differential harness against a reference path resolver",
         design_ref="DESIGN.md section 3 C02",
@@ -146,7 +146,7 @@ CLAIMED = {
     "C06": dict(
         text="Bounded symbolic execution (CrossHair/z3) of the real write_response/write_line -> parse_line/parse_response round trip (line-level alphabet, "
              "exhaustive; sentinel reply detects desynchronisation), rejection of a mismatching final line, Code.matches on fully symbolic code and mask strings, "
-             "check_codes, the command() wait/expect loop, a real StreamReader cut at symbolic positions, and parse_command's verb/argument split.",
+             "check_codes, the command() wait/expect loop, a real StreamReader cut at symbolic positions, and parse_command's verb/argument split. Multi-byte characters are placed at every small byte offset of body and final lines (byte vs character positions).",
         note="Trusted: CrossHair/z3; line content is exhaustive only over the stated line universe (free lines are searched, not exhausted). "
              "Outside: mismatching non-final lines, non-ASCII mask characters.",
         technique="bounded symbolic execution of the real Python code (CrossHair 0.0.110 + z3): encode/decode round-trip harness",
